@@ -212,6 +212,65 @@ func roMalformations(mode int, ss []seed, bound int) mc.Harness {
 	}
 }
 
+// container length x content count: a count that is validated against the declared length of the box,
+// segment or chunk it sits in, while that length itself is not validated against the file
+func roLengthAndCount(mode int, ss []seed) mc.Harness {
+	type pair struct{ s, c, f int }
+	var pairs []pair
+	isLen := func(k string) bool { return k == "size32" || k == "size64" || k == "len16" || k == "len32" }
+	isCnt := func(k string) bool {
+		return k == "count16" || k == "count32" || k == "len16" || k == "len32" || k == "val16" || k == "val32"
+	}
+	for si, s := range ss {
+		for ci, c := range s.doc.Fields {
+			if !isLen(c.Kind) {
+				continue
+			}
+			span := int(s.doc.Get(c))
+			for fi, f := range s.doc.Fields {
+				if fi != ci && isCnt(f.Kind) && f.Off > c.Off && f.Off < c.Off+span+8 {
+					pairs = append(pairs, pair{si, ci, fi})
+				}
+			}
+		}
+	}
+	lens := []uint64{0x02000000, 0x7ffffff0, 0xfffffff0, 0xffff}
+	cnts := []uint64{0xffffffff, 0x00400000, 0x7fffffff, 0x0fffffff}
+	const chunk = 4
+	return func(x *mc.Exec) {
+		ch := x.All("pair-chunk", (len(pairs)+chunk-1)/chunk)
+		sigs := map[string]bool{}
+		var n int64
+		for pi := ch * chunk; pi < (ch+1)*chunk && pi < len(pairs); pi++ {
+			p := pairs[pi]
+			s := ss[p.s]
+			c, f := s.doc.Fields[p.c], s.doc.Fields[p.f]
+			for _, lv := range lens {
+				for _, cv := range cnts {
+					d := &gen.Doc{B: append([]byte{}, s.doc.B...), Fields: s.doc.Fields}
+					d.Set(c, lv)
+					d.Set(f, cv)
+					for ei := range entryPoints {
+						e := &entryPoints[ei]
+						if !e.accepts(s.kind) && ei != 0 {
+							continue
+						}
+						pristine()
+						res := runEntry(e, envio.New(d.B), mode == oracleAlloc)
+						n++
+						if kind, desc := roJudge(mode, e, res, len(d.B)); kind != "" {
+							roFail(x, sigs, mode, e, kind, desc, fmt.Sprintf("seed %s with %s=%#x and %s=%#x", s.name, c.Name, lv, f.Name, cv), d.B, res)
+						}
+					}
+				}
+			}
+		}
+		x.Bulk = n - 1
+		x.InputID = hashBytes([]byte(fmt.Sprint("lc", ch)))
+		x.Outcome = fmt.Sprint(ch % 5)
+	}
+}
+
 // S4: every single-byte substitution
 func roByteSubst(mode int, ss []seed, stride int) mc.Harness {
 	pairs := seedEntryPairs(ss)
@@ -382,6 +441,8 @@ func roSpaces(mode int, tier string) []mc.Space {
 		Rule: "for every supported Exif field alone in a record, in both byte orders: value shapes its parser does not expect (count 0; strings/dates of 0, 1 and 3 characters with and without NUL; a rational as two SHORTs / one LONG / no value; BYTE x4) x every accepting entry point"})
 	sp = append(sp, mc.Space{Name: "shared-value-bytes", H: roSeedsPlain(mode, amplificationSeeds()), NoLevels: true, Isolate: true,
 		Rule: "TIFF blocks whose 40-83 string fields name overlapping or identical value bytes (steps 0, 1, 64, 100; counts 1000-4096), alone and repeated as 24 and 64 Exif segments of one JPEG in alternating byte orders x every accepting entry point: the work and memory of a decode must follow the file's length, not the number of names for the same bytes"})
+	sp = append(sp, mc.Space{Name: "length-and-count-pairs", H: roLengthAndCount(mode, gs), NoLevels: true, Isolate: true,
+		Rule: "for every box, segment or chunk length field of every generated seed and every count / length / value field inside the span it declares: the length set to {0x02000000, 0x7ffffff0, 0xfffffff0, 0xffff} and the inner field to {all ones, 0x00400000, 0x7fffffff, 0x0fffffff} together (a count validated against a declared length that is itself unvalidated) x every accepting entry point"})
 	sp = append(sp, mc.Space{Name: "large-payload-malformations", H: roMalformations(mode, bigSeeds(), mb), Bound: mb, Isolate: true,
 		Rule: "generated files whose payloads exceed the internal buffers (CR3 with a 70 KB preview and a 9 KB XMP packet, in 32- and 64-bit box forms; TIFF with 5000- and 1500-byte strings; JPEG with 60 KB XMP and 65 KB APPn segments): every structural field x its malformation menu, up to the bound simultaneously; every accepting entry point"})
 	return sp
